@@ -203,6 +203,9 @@ def lookup_agreement(g):
             out.append(('lookup-connection', 'connection[%r] is not the listed connection' % (key,)))
             break
         for b in c.block:
+            if g.block.get(b.name) is not b:
+                out.append(('lookup-endpoint', 'connection %r: endpoint %r is not the block of that name in the grid' % (key, b.name)))
+                return out
             if key not in b.connection_name:
                 out.append(('lookup-connection_name', 'block %r does not record its connection %r' % (b.name, key)))
                 return out
@@ -1019,7 +1022,7 @@ def worker(task):
             run_embed(case, st)
             st.distinct += 1
             if sample is None:
-                sample = {'part': 'D', 'ratio': case['ratio'], 'clash': case['clash'], 'geometry': tag(case['desc'])}
+                sample = {'part': 'D', 'ratio': case['ratio'], 'clash': case['clash'], 'ends': case['ends'], 'geometry': tag(case['desc'])}
     return st.done(), sample
 
 
